@@ -16,7 +16,7 @@ ANCHORS = ['phylib.io.model:TemplateModel._find_best_channels', 'phylib.io.model
            'phylib.io.model:TemplateModel.get_template_channels', 'phylib.io.model:TemplateModel.get_cluster_channels']
 RULE = ('Each case = one generated dataset (3/8/12/13/20 channels, 1-3 shanks far apart or interleaved on one grid, jittered or tie-prone '
         'geometry, whitening present/absent, dense or sparse templates with -1 and all-zero columns) loaded '
-        'with the real load_model; for every template: get_template under thresholds {default,0,.3,.5,.7,1} (a third of the datasets hold channels at exactly half the peak amplitude and exactly flat channels) x '
+        'with the real load_model; for every template: get_template under (a model-level default threshold of 0.5 / 0.3 set in params.py for half of the datasets; KS2-style sparse storage with a trivial column table) thresholds {default,0,.3,.5,.7,1} (a third of the datasets hold channels at exactly half the peak amplitude and exactly flat channels) x '
         'n_closest_channels {4,12} x unwhiten {T,F} x explicit channel lists (permuted subsets, list and '
         'array), plus get_template_channels / get_template_waveforms / get_cluster_channels. Each record is '
         'judged for: distinct channels, non-increasing ptp, peak first, column j = reference (un)whitened '
@@ -56,7 +56,12 @@ def run_case(case, ctx):
     opts.update(dtype_amps=['float64', 'float32'][int(rng.integers(0, 2))],
                 dtype_templates=['float32', 'float32', 'float64'][int(rng.integers(0, 3))],
                 dtype_feat=['float32', 'float64'][int(rng.integers(0, 2))])
+    opts['sparse_identity'] = bool(sparse and rng.random() < 0.35)
     spec = random_spec(rng, **opts)
+    thr_default = [None, None, 0.5, 0.3][int(rng.integers(0, 4))]
+    if thr_default is not None:
+        spec.notes['amplitude_threshold'] = thr_default      # model-level default set in params.py
+    opts['thr_default'] = thr_default
     d = scratch_dir('c05_')
     desc = {'seed': case['seed'], 'opts': opts}
     try:
@@ -92,7 +97,7 @@ def _dense(m, spec, desc, ctx, rng):
                     if thr in (.3, 1) and not unw and ncl == 12:
                         continue
                     U = rt.unwhitened(spec, t, unw)
-                    thr_eff = 0 if thr is None else thr
+                    thr_eff = (desc['opts'].get('thr_default') or 0) if thr is None else thr
                     best, req_set, allowed = rt.dense_channel_sets(spec, U, thr_eff, ncl)
                     restricted = len(allowed) < nc
                     req = {'t': t, 'n_closest': ncl, 'thr': thr, 'unwhiten': unw}
